@@ -10,7 +10,8 @@
    (verdicts there: correspondence and concrete oracle). *)
 From Coq Require Import ZArith List Bool Arith.
 From CrabV Require Import Base.ZInf Scalar.Itv Ir.Syntax Ir.Cfg Dom.ItvEnv Dom.ItvEnvSound Dom.ItvDomain
-     Fix.Engine Ana.Transformer Ana.FwdItv Ana.FwdItvSound Ana.Checker.
+     Fix.Wto Fix.WtoCheck Fix.Engine Ana.Transformer Ana.FwdItv Ana.FwdItvSound Ana.Checker Ana.FwdItvEngineSound
+     Ana.CheckerEngine.
 Import ListNotations.
 
 Theorem C02_block_verdicts_sound : forall bl inv a,
@@ -32,6 +33,18 @@ Proof.
   apply (blocks_wf p WF).
 Qed.
 
+(* the same for the tables computed by the engine model itself (its soundness, C01, replaces the
+   checker): every program, the ordering built by the wto.hpp model, every start block of it, every
+   parameter setting and fuel *)
+Theorem C02_engine_verdicts_sound :
+  forall p, prog_wfb p = true ->
+  forall use_asm asm (Init : store -> Prop) init, (forall s, Init s -> genv init s) ->
+  forall delay desc fuel e0 entry w e,
+  build (p_graph p) e0 = Some w -> In entry (flat w) ->
+  fwd_run p w entry delay desc use_asm asm fuel init = Some e ->
+  forall n a, ReachPre p entry use_asm asm Init n a -> sound_verdicts (p_block p n) (e_pre env e n) a.
+Proof. exact engine_verdicts_sound. Qed.
+
 (* non-vacuity: x := 0; loop x <= 9: x++; exit: assert(x = 10) is safe, assert(x <= 5) a warning *)
 Example C02_example :
   let x := 0%N in
@@ -41,3 +54,4 @@ Proof. vm_compute. reflexivity. Qed.
 
 Print Assumptions C02_block_verdicts_sound.
 Print Assumptions C02_forward_verdicts_sound.
+Print Assumptions C02_engine_verdicts_sound.
